@@ -528,7 +528,9 @@ def run(ctx):
     for key in sorted(viol):
         _, desc, case = viol[key]['best']
         where = sorted(viol[key]['where'])
-        kinds = sorted(set(w.split('.')[2] for w in where), key=G.KIND_ORDER.index)
+        kinds = set(w.split('.')[2] for w in where)
+        # a typedef-alias kind that fails together with its direct spelling is the same site class
+        kinds = sorted((k for k in kinds if G.ALIAS_OF.get(k) not in kinds), key=G.KIND_ORDER.index)
         # site class: the failing type kinds when they are few (the defect is about those kinds), else
         # only how many of the explored kinds fail (mechanism independent of the kind)
         kclass = ','.join(kinds) if len(kinds) <= 3 else '%d-kinds' % len(kinds)
